@@ -10,8 +10,8 @@ TRUST = "TLC 1.8 + the Float64 Java override (self-tested against numpy on every
 CLAIMED = {
     "C10": dict(
         category="model_checking",
-        technique="TLA+ spec Batch.tla model-checked by TLC; TLC behaviours replayed through CphotAng.__call__ with a scripted dask scheduler; traces of real dask schedulers validated against the spec (TraceBatch.tla)",
-        text="Batch.tla specifies partitioning (any consecutive segmentation; the code's uniform rule as instance), any-order start/finish by W workers, failure and in-order gather; TLC checks OkIsIdentity / NeverSilent / PartitionResults / termination exhaustively for N<=5, all compositions of <=4 events and the code's constants (PSize=100). Every maximal TLC behaviour of the replay instances is stepped through the real batch call, all completion orders x failure positions x partition sizes are run with an order-controlled scheduler, and executions under dask's synchronous/threads/processes schedulers are recorded; every execution is a trace validated by TLC against Batch.tla with result tokens obtained by bitwise comparison with one-at-a-time evaluation (run() on the event's own values) on fresh kernel objects; batches in mixed dtypes, at other detector altitudes, with the configured cloud-model object as callback, single-event and empty batches included.",
+        technique="TLA+ spec Batch.tla model-checked by TLC and, for unbounded N / segmentation / workers, proved with the TLA+ proof system (BatchProof.tla, refinement to Batch checked by TLC); TLC behaviours replayed through CphotAng.__call__ with a scripted dask scheduler; traces of real dask schedulers validated against the spec (TraceBatch.tla)",
+        text="Batch.tla specifies partitioning (any consecutive segmentation; the code's uniform rule as instance), any-order start/finish by W workers, failure and in-order gather; TLC checks OkIsIdentity / NeverSilent / PartitionResults / termination exhaustively for N<=5, all compositions of <=4 events and the code's constants (PSize=100); BatchProof.tla states the same design with the gather as a loop and tlapm proves Spec => [](OkIsIdentity /\\ NeverSilent) without any bound (89 obligations), TLC checking on small constants that BatchProof refines Batch. Every maximal TLC behaviour of the replay instances is stepped through the real batch call, all completion orders x failure positions x partition sizes are run with an order-controlled scheduler, and executions under dask's synchronous/threads/processes schedulers are recorded; every execution is a trace validated by TLC against Batch.tla with result tokens obtained by bitwise comparison with one-at-a-time evaluation (run() on the event's own values) on fresh kernel objects; batches in mixed dtypes, at other detector altitudes, with the configured cloud-model object as callback, single-event and empty batches included.",
         note="Assumes: dask invokes callbacks in the scheduler thread (linearised log); intra-kernel thread interleavings are sampled not enumerated; result identity by bitwise equality with single-event evaluation.",
         design="4/C10"),
     "C17": dict(
